@@ -66,10 +66,13 @@ def handle : Driver.Handler := fun op j =>
     let rf ← getRowFilter j
     let cf ← getColFilter j
     let crs ← Driver.get? Int j "crs"
-    pure <| Driver.outE (fun (text : List Char) =>
+    -- the lines of the file are written by ExeTera's own `_csv_record` (fixes/D30_NC18a: `csvRecord`); the as-found variant
+    -- (`csv.writer`, `Spec.Csv.renderRow`) is reported next to it so that a tree without the fix is recognised
+    let out (writerow : List Cell → List Char) := Driver.outE (fun (text : List Char) =>
         Json.mkObj [("text", str text), ("reimport", rowsJson (Spec.Csv.parse .exetera text)),
                     ("std", rowsJson (Spec.Csv.parse .std text))])
-      (toCsv Spec.Csv.renderRow f rf cf crs)
+      (toCsv writerow f rf cf crs)
+    pure <| (out csvRecord).setObjVal! "as_found" (out Spec.Csv.renderRow)
   | "c18_to_pandas" => some do
     let f ← getFrame j
     let rf ← getPdFilter j
@@ -83,6 +86,9 @@ def handle : Driver.Handler := fun op j =>
   | "c18_render" => some do
     let rows ← Driver.get? (List (List String)) j "rows"
     pure <| Driver.okJson (Json.mkObj [("text", str (Spec.Csv.render (rows.map (·.map cell))))])
+  | "c18_record" => some do
+    let rows ← Driver.get? (List (List String)) j "rows"
+    pure <| Driver.okJson (Json.mkObj [("text", str ((rows.map (·.map cell)).flatMap csvRecord))])
   | "c18_parse" => some do
     let texts ← Driver.get? (List String) j "texts"
     let one (t : String) : Json :=
